@@ -18,7 +18,13 @@ import (
 func init() { register("C14", runC14) }
 
 func runC14(c *mon.Ctx) {
-	c.Cases(func(i int, r *mon.Rand) { c14Life(c, r) })
+	c.Cases(func(i int, r *mon.Rand) {
+		if flagMode == "keepcalling" {
+			c14CallersKeepCalling(c, r)
+			return
+		}
+		c14Life(c, r)
+	})
 }
 
 func m3Goroutines() int {
@@ -254,4 +260,116 @@ func c14Life(c *mon.Ctx, r *mon.Rand) {
 	if c.WantSample() {
 		c.Sample(map[string]interface{}{"config": desc, "datagrams_written": len(fl)})
 	}
+}
+
+// c14CallersKeepCalling: "Close returns" must not depend on the callers going
+// quiet. Many goroutines keep calling the reporter in a tight loop - they
+// cannot know that it is being closed - until Close has returned. Bounded
+// progress: Close must return within 20 s (normal: well under a second). The
+// verdict needs a logical corroboration as well: the M3Entered point (hit
+// after a caller has registered itself as pending) must have been reached
+// more than 100 times per caller after Close's M3CloseCAS point, i.e. callers
+// kept registering as pending after the reporter was marked closed, which is
+// what keeps Close waiting. A slow Close without that is inconclusive.
+func c14CallersKeepCalling(c *mon.Ctx, r *mon.Rand) {
+	N := 8 * runtime.GOMAXPROCS(0)
+	if N < 64 {
+		N = 64
+	}
+	dest := []string{"alive", "dead-port"}[r.Intn(2)]
+	opts := m3.Options{Service: "s", Env: "e", MaxQueueSize: []int{16, 4096}[r.Intn(2)]}
+	if r.Bool() {
+		opts.Protocol = m3.Binary
+	}
+	nSinks := 1
+	if dest == "dead-port" {
+		nSinks = 0
+		opts.HostPorts = []string{mon.DeadPort()}
+	}
+	var closeBegan int32
+	var enteredAfter int64
+	hook := func(id int) {
+		switch id {
+		case tally.VerifM3CloseCAS:
+			atomic.StoreInt32(&closeBegan, 1)
+		case tally.VerifM3Entered:
+			if atomic.LoadInt32(&closeBegan) == 1 {
+				atomic.AddInt64(&enteredAfter, 1)
+			}
+		}
+	}
+	desc := map[string]interface{}{"callers_that_keep_calling": N, "destination": dest, "queue": opts.MaxQueueSize, "protocol": protoName(opts.Protocol)}
+	c.LogCase(fmt.Sprint(desc))
+	env, err := newM3Env(nSinks, opts, hook)
+	if err != nil {
+		c.Inconclusive("NewReporter: " + err.Error())
+		return
+	}
+	c.Eval(1)
+	rep := env.Rep
+	cnt := rep.AllocateCounter("c", map[string]string{"a": "b"})
+	g := rep.AllocateGauge("g", nil)
+	var stop int32
+	var calls int64
+	var wg sync.WaitGroup
+	for i := 0; i < N; i++ {
+		wg.Add(1)
+		go func(i int) {
+			defer wg.Done()
+			c.Guard("panic-m3", func() interface{} { return desc }, func() {
+				n := int64(0)
+				for atomic.LoadInt32(&stop) == 0 {
+					if i%8 == 7 {
+						g.ReportGauge(1)
+					} else {
+						cnt.ReportCount(1)
+					}
+					n++
+					if n&1023 == 0 {
+						atomic.AddInt64(&calls, 1024)
+					}
+				}
+			})
+		}(i)
+	}
+	time.Sleep(time.Duration(r.Range(200, 2000)) * time.Microsecond)
+	closed := make(chan error, 1)
+	t0 := time.Now()
+	go func() { closed <- rep.Close() }()
+	var took time.Duration
+	starved := false
+	select {
+	case err := <-closed:
+		took = time.Since(t0)
+		if err != nil {
+			c.Violation("close-results", map[string]interface{}{"why": "first Close returned " + err.Error(), "case": desc})
+		}
+	case <-time.After(20 * time.Second):
+		starved = true
+	}
+	ea := atomic.LoadInt64(&enteredAfter)
+	atomic.StoreInt32(&stop, 1)
+	if starved {
+		select {
+		case <-closed:
+		case <-time.After(60 * time.Second):
+			c.Violation("m3-close-does-not-return", map[string]interface{}{"why": "Close has not returned 60s after every caller stopped", "case": desc})
+			c.Finish()
+			os.Exit(1)
+		}
+		if ea > int64(100*N) {
+			c.Violation("m3-close-starved-by-callers", map[string]interface{}{"why": fmt.Sprintf("Close had not returned after 20s while %d goroutines kept calling the reporter (it returned once they stopped); after the reporter was marked closed callers still registered as pending %d times (%d calls made in total)", N, ea, atomic.LoadInt64(&calls)), "case": desc})
+		} else {
+			c.Inconclusive(fmt.Sprintf("Close took more than 20s with callers still calling, but only %d pending registrations after the close began", ea))
+		}
+	}
+	wg.Wait()
+	env.finish()
+	c.Event("calls-by-goroutines-that-keep-calling", atomic.LoadInt64(&calls))
+	c.Event("pending-registrations-after-close-began", ea)
+	c.Class("close-with-callers-still-calling-returned", 1)
+	if c.WantSample() {
+		c.Sample(map[string]interface{}{"config": desc, "close_took_ms": took.Milliseconds(), "pending_registrations_after_close_began": ea})
+	}
+	c.Distinct(mon.Hash64("keepcalling", fmt.Sprint(desc), fmt.Sprint(r.U64())))
 }
